@@ -219,6 +219,10 @@ def main():
             R.violation("property", "the '?'-leaf position or the flatten mode outlived the checks: %s" % r["flags"], {"session": sess}, key={"kind": "flags"})
         if len(samples) < 4 and mt[0] == "gen" and idx % 13 == 0:
             samples.append({"session": sess, "verdicts": vs})
+    # the statements the translator cut out of the source, run by CPython with scripted stand-ins, against their translation
+    # interpreted inside Coq (lib/storage_corr.py)
+    import storage_corr
+    R.coverage["source_fragment_cases"] = storage_corr.fragment_correspondence(R, ['leafloop'], 600 if R.thorough else 60)
     if not proved:
         R.violation("proof", "proof obligations of props/C16.v no longer check: " + str(R.broken_proof)[-800:],
                     {"theorem_file": "coq/props/C16.v", "log": R.broken_proof}, no_input=not any(v["kind"] == "property" for v in R.violations))
